@@ -308,7 +308,8 @@ func genLines(r *rand.Rand, p *Patterns, fam string, d *Dialogue, n int, st *Gen
 	return out
 }
 
-func genPromptText(r *rand.Rand, kind string, d *Dialogue) string {
+// promptFamily lists the base spellings of a credential prompt.
+func promptFamily(kind string, d *Dialogue) []string {
 	var base []string
 	switch kind {
 	case KUser:
@@ -320,6 +321,11 @@ func genPromptText(r *rand.Rand, kind string, d *Dialogue) string {
 		base = []string{"Enter passphrase for key '/home/" + d.User + "/.ssh/id_rsa':", "Enter passphrase for key '/tmp/k':",
 			"Enter passphrase for key 'id_ed25519':", "Enter passphrase for key '/etc/keys/" + d.Host + ".pem':"}
 	}
+	return base
+}
+
+func genPromptText(r *rand.Rand, kind string, d *Dialogue) string {
+	base := promptFamily(kind, d)
 	s := mangleCase(r, base[r.Intn(len(base))])
 	if r.Intn(5) < 3 {
 		s += " "
@@ -327,9 +333,10 @@ func genPromptText(r *rand.Rand, kind string, d *Dialogue) string {
 	return s
 }
 
-func genSSHErr(r *rand.Rand, d *Dialogue, afterPassword bool) string {
+// sshErrFamily lists ssh client failure lines, one or more per recognised phrase.
+func sshErrFamily(d *Dialogue) []string {
 	h := d.Host
-	fam := []string{
+	return []string{
 		"ssh: connect to host " + h + " port 22: Connection timed out",
 		"ssh: connect to host " + h + " port 22: Operation timed out",
 		"ssh: connect to host " + h + " port 22: No route to host",
@@ -343,6 +350,10 @@ func genSSHErr(r *rand.Rand, d *Dialogue, afterPassword bool) string {
 		d.User + "@" + h + ": Permission denied (publickey,password).",
 		"Permission denied, please try again.",
 	}
+}
+
+func genSSHErr(r *rand.Rand, d *Dialogue, afterPassword bool) string {
+	fam := sshErrFamily(d)
 	if afterPassword && r.Intn(2) == 0 {
 		return "Permission denied, please try again."
 	}
@@ -531,22 +542,9 @@ func GenDialogue(r *rand.Rand, o GenOpts) (Dialogue, GenStats) {
 			d.Out = append(d.Out, devsim.T(l.S+d.NL))
 		}
 		d.Exact = r.Intn(2) == 0
-		d.FirstOp = []string{"getprompt", "sendcommand", "readall"}[r.Intn(3)]
+		d.FirstOp = []string{"getprompt", "sendcommand", "readall", "readall"}[r.Intn(4)]
 	}
-	d.ReadSize = []int{1, 2, 7, 64, 8192, 8192}[r.Intn(6)]
-	d.PSD = []int{1000, 1000, 300}[r.Intn(3)]
-	d.ReturnChar = []string{"\n", "\n", "\r", "\r\n"}[r.Intn(4)]
-	if d.Driver == "netconf" {
-		d.ReturnChar = "\n"
-	}
-	d.ReadDelay = []int{50, 250, 250, 1000}[r.Intn(4)]
-	mode := []string{"fixed", "whole", "geom", "mix", "mix"}[r.Intn(5)]
-	d.Seg = devsim.Seg{Mode: mode, Size: []int{1, 2, 3, 7, 16, 100}[r.Intn(6)], Seed: r.Int63()}
-	if d.Seg.Size >= 16 || mode == "whole" {
-		d.Seg.Delay = []string{"", "gosched", "sleep"}[r.Intn(3)]
-	} else {
-		d.Seg.Delay = []string{"", "gosched"}[r.Intn(2)]
-	}
+	genTransport(r, &d)
 	if !o.NoStall && r.Intn(5) == 0 {
 		a := Analyse(&d)
 		cuts := a.AllowedCuts()
@@ -554,6 +552,95 @@ func GenDialogue(r *rand.Rand, o GenOpts) (Dialogue, GenStats) {
 	}
 	Finish(&d)
 	return d, st
+}
+
+func genTransport(r *rand.Rand, d *Dialogue) {
+	d.ReadSize = []int{1, 2, 7, 64, 8192, 8192}[r.Intn(6)]
+	d.PSD = []int{1000, 1000, 300}[r.Intn(3)]
+	d.ReturnChar = []string{"\n", "\n", "\r", "\r\n"}[r.Intn(4)]
+	if d.Driver == "netconf" {
+		d.ReturnChar = "\n"
+	}
+	d.ReadDelay = []int{10, 50, 250, 250, 1000}[r.Intn(5)]
+	mode := []string{"fixed", "whole", "geom", "mix", "mix"}[r.Intn(5)]
+	d.Seg = devsim.Seg{Mode: mode, Size: []int{1, 2, 3, 7, 16, 100}[r.Intn(6)], Seed: r.Int63()}
+	if d.Seg.Size >= 16 || mode == "whole" {
+		d.Seg.Delay = []string{"", "gosched", "sleep"}[r.Intn(3)]
+	} else {
+		d.Seg.Delay = []string{"", "gosched"}[r.Intn(2)]
+	}
+}
+
+// Sweep enumerates minimal dialogues that cover every ssh failure line and every base prompt
+// spelling of the generator's families (so that each is exercised in every run, not only when the
+// PRNG happens to pick it). Transport parameters are still drawn from r.
+func Sweep(r *rand.Rand) []Dialogue {
+	var out []Dialogue
+	base := func(auth, driver string) Dialogue {
+		d := Dialogue{StallAt: -1, Auth: auth, Driver: driver, Host: hosts[r.Intn(len(hosts))], User: "admin",
+			Password: "pw" + randStr(r, secretAlpha, 8), NL: "\r\n", EchoUser: auth == "telnet"}
+		if auth == "ssh" {
+			d.Passphrase = "ph" + randStr(r, secretAlpha, 8)
+		}
+		d.Prompt = d.Host + "# "
+		d.Cmd = "show sweep!"
+		d.Out = []devsim.Token{devsim.T("sweep ok" + d.NL)}
+		d.FirstOp = "getprompt"
+		if driver == "netconf" {
+			d.Caps, d.SessionID = []string{ncsim.Cap10, ncsim.Cap11}, "7"
+		}
+		genTransport(r, &d)
+		return d
+	}
+	final := func(d *Dialogue) Step {
+		if d.Driver == "netconf" {
+			return Step{Kind: KHello}
+		}
+		return Step{Kind: KShell}
+	}
+	drivers := []string{"generic", "network", "netconf"}
+	n := 0
+	for i := range sshErrFamily(&Dialogue{}) {
+		for _, after := range []bool{false, true} {
+			d := base("ssh", drivers[n%3])
+			n++
+			e := sshErrFamily(&d)[i]
+			if after {
+				d.Steps = []Step{{Kind: KPassword, Text: "Password: "}, {Kind: KSSHErr, Text: e}, final(&d)}
+			} else {
+				d.Steps = []Step{{Kind: KSSHErr, Text: e}, final(&d)}
+			}
+			Finish(&d)
+			out = append(out, d)
+		}
+	}
+	for _, kind := range []string{KUser, KPassword, KPassphrase} {
+		for _, auth := range []string{"telnet", "ssh"} {
+			if kind == KUser && auth == "ssh" || kind == KPassphrase && auth == "telnet" {
+				continue
+			}
+			for i := range promptFamily(kind, &Dialogue{}) {
+				for _, sp := range []string{"", " "} {
+					drv := drivers[n%3]
+					if auth == "telnet" {
+						drv = drivers[n%2]
+					}
+					n++
+					d := base(auth, drv)
+					txt := promptFamily(kind, &d)[i] + sp
+					p := sessionPatterns(auth, drv)
+					if !p.promptTextOK(kind, txt) || !p.tailOK(kind, txt, "") {
+						continue
+					}
+					// asked twice (one rejection), then admitted
+					d.Steps = []Step{{Kind: kind, Text: txt}, {Kind: kind, Text: txt}, final(&d)}
+					Finish(&d)
+					out = append(out, d)
+				}
+			}
+		}
+	}
+	return out
 }
 
 // Finish fills the derived fields (expected class, needed offset, timeout).
@@ -564,7 +651,7 @@ func Finish(d *Dialogue) {
 	if a.Class == OutTimeout {
 		d.TimeoutMS = 300
 	} else {
-		d.TimeoutMS = 10000
+		d.TimeoutMS = 4000
 	}
 }
 
